@@ -128,7 +128,7 @@ class RecipeBuilder:
             if ci is None:
                 continue
             for f, ks in ci.fields.items():
-                fk = parse_kind(ks.rstrip("?"), self.reg.opaque)
+                fk = parse_kind(ks, self.reg.opaque)
                 if fk in (FN, NONE):
                     continue
                 fa = self.arr(HeapModel.n_fld(f, fk.sort()))
@@ -137,7 +137,7 @@ class RecipeBuilder:
                 else:
                     fields[f] = self.build(fk, fa[addr])
         ci = self.reg.classes.get(cls)
-        return {"__object__": cls, "file": ci.file if ci else None, "fields": fields, "id": ident}
+        return {"__object__": ci.srcname if ci else cls, "file": ci.file if ci else None, "fields": fields, "id": ident}
 
     def stub(self, kind):
         t = kind.target
@@ -196,6 +196,10 @@ class RecipeLoader:
                 return s
             if "__object__" in r:
                 cls = self.resolve_class(r["__object__"], r.get("file"))
+                import inspect
+
+                if inspect.isabstract(cls):
+                    cls = type(cls.__name__ + "Stub", (cls,), {m: (lambda self, *a, **k: None) for m in cls.__abstractmethods__})
                 o = object.__new__(cls)
                 self.objs[r["id"]] = o
                 for f, v in r["fields"].items():
@@ -210,7 +214,9 @@ class RecipeLoader:
         if name in self.native_classes:
             return self.native_classes[name]
         if file is None:
-            raise CannotBuild(f"no native class for {name}")
+            import types
+
+            return types.SimpleNamespace
         modname = file[:-3].replace("/", ".")
         if modname.endswith(".__init__"):
             modname = modname[: -len(".__init__")]
